@@ -18,6 +18,7 @@ func init() {
 	register(&Rule{ID: "C15.R3", Prop: "C15", Floor: 3, Doc: "credited deposits and revision amount are the same fold; only atomic credit sinks are used", Run: c15r3})
 	register(&Rule{ID: "C15.R4", Prop: "C15", Floor: 2, Doc: "pool attach/detach only after every entry's signature was verified against the host key", Run: c15r4})
 	register(&Rule{ID: "C15.R6", Prop: "C15", Floor: 1, Doc: "idempotent attachment: the membership scan compares with the value that is inserted", Run: c15r6})
+	register(&Rule{ID: "C15.R7", Prop: "C15", Floor: 1, Doc: "the attached-pool list keeps attachment order: no element overwritten in place, never sorted/reversed/shuffled", Run: c15r7})
 	register(&Rule{ID: "C15.R5", Prop: "C15", Floor: 2, Doc: "replenish tops up each distinct key once", Run: c15r5})
 }
 
@@ -706,4 +707,111 @@ func sumByMethod(c *Ctx, f *ir.Func, amount ast.Expr, deposits ast.Expr, sink ir
 		}
 	}
 	return true
+}
+
+// c15r7: the per-account list of attached pools keeps attachment order (pools are drained in that order). The list
+// field is the one the scan-then-append idiom of R6 inserts into; nowhere may an element of such a list be
+// overwritten in place (swap-removal) or the list be handed to a sorting / reversing / shuffling routine.
+func c15r7(c *Ctx) {
+	n := 0
+	for _, pkg := range []string{"testutil", "rhp"} {
+		fields := map[*types.Var]bool{}
+		for _, f := range c.P.PkgFuncs(pkg) {
+			ir.Walk(f.Body, false, func(x ast.Node) {
+				as, ok := x.(*ast.AssignStmt)
+				if !ok || len(as.Lhs) != 1 || len(as.Rhs) != 1 {
+					return
+				}
+				lhs, ok := ast.Unparen(as.Lhs[0]).(*ast.IndexExpr)
+				if !ok {
+					return
+				}
+				ac, ok := ast.Unparen(as.Rhs[0]).(*ast.CallExpr)
+				if !ok || len(ac.Args) != 2 || ac.Ellipsis.IsValid() {
+					return
+				}
+				if id, ok := ac.Fun.(*ast.Ident); !ok || id.Name != "append" || !sameLvalue(f, ac.Args[0], lhs) {
+					return
+				}
+				if mt, isMap := f.TypeOf(lhs.X).Underlying().(*types.Map); !isMap {
+					return
+				} else if _, isSlice := mt.Elem().Underlying().(*types.Slice); !isSlice {
+					return
+				}
+				if fld := f.FieldOf(lhs.X); fld != nil {
+					fields[fld] = true
+				}
+			})
+		}
+		for fld := range fields {
+			for _, f := range c.P.PkgFuncs(pkg) {
+				if !f.MentionsField(f.Body, true, fld) {
+					continue
+				}
+				// aliases: the keyed element itself, and locals defined from it
+				alias := map[types.Object]bool{}
+				isList := func(e ast.Expr) bool {
+					e = ast.Unparen(e)
+					if ix, ok := e.(*ast.IndexExpr); ok && f.FieldOf(ix.X) == fld {
+						return true
+					}
+					if se, ok := e.(*ast.SliceExpr); ok {
+						e = ast.Unparen(se.X)
+						if ix, ok := e.(*ast.IndexExpr); ok && f.FieldOf(ix.X) == fld {
+							return true
+						}
+					}
+					o := f.ObjOf(e)
+					return o != nil && alias[o]
+				}
+				for round := 0; round < 2; round++ {
+					for _, w := range f.WritesIn(f.Body, true) {
+						if w.RHS != nil && isList(w.RHS) {
+							if o := f.ObjOf(w.LHS); o != nil {
+								alias[o] = true
+							}
+						}
+					}
+				}
+				n++
+				c.VisitGraph(f)
+				ob := c.Ob(f, "attachment-order-kept:"+fld.Name(), f.Body.Pos())
+				bad := false
+				for _, w := range f.WritesIn(f.Body, true) {
+					if ix, ok := ast.Unparen(w.LHS).(*ast.IndexExpr); ok && isList(ix.X) {
+						ob.Bad(nil, "an element of the attachment list %s is overwritten in place at %s: removing by swapping in the last entry changes the order in which the remaining pools are drained", fld.Name(), c.P.Pos(w.LHS.Pos()))
+						bad = true
+						break
+					}
+				}
+				if !bad {
+					for _, call := range f.Calls(true) {
+						if call.Fn == nil || call.Fn.Pkg() == nil {
+							continue
+						}
+						reorders := false
+						switch call.Fn.Pkg().Path() + "." + call.Fn.Name() {
+						case "sort.Slice", "sort.SliceStable", "sort.Sort", "sort.Stable", "slices.Sort", "slices.SortFunc", "slices.SortStableFunc", "slices.Reverse", "lukechampine.com/frand.Shuffle", "math/rand.Shuffle":
+							reorders = true
+						}
+						if !reorders {
+							continue
+						}
+						for _, a := range call.Expr.Args {
+							if isList(a) {
+								ob.Bad(nil, "the attachment list %s is reordered by %s at %s", fld.Name(), call.Fn.Name(), c.P.Pos(call.Pos()))
+								bad = true
+							}
+						}
+					}
+				}
+				if !bad {
+					ob.OK("the list is only appended to, re-sliced or read")
+				}
+			}
+		}
+	}
+	if n == 0 {
+		ir.Fail("no attachment list found (reference contractor's pool attachments)")
+	}
 }
